@@ -34,6 +34,9 @@ def tartiflette():
     return t
 
 
+EXEC_TIMEOUT = float(os.environ.get("VERIF_EXEC_TIMEOUT", "20"))
+
+
 class Loop:
     """A fresh asyncio loop driven by hand: run_until_idle() runs every ready callback
     until nothing is runnable, which leaves the engine suspended exactly on the
@@ -52,7 +55,12 @@ class Loop:
             if n > max_iter:
                 raise RuntimeError("event loop does not go idle")
 
-    def run(self, coro):
+    def run(self, coro, timeout=None):
+        """run to completion; an execution that does not finish within EXEC_TIMEOUT seconds (deadlock inside the engine:
+        ungated executions take milliseconds) raises asyncio.TimeoutError - an observation like any other exception"""
+        timeout = EXEC_TIMEOUT if timeout is None else timeout
+        if timeout and (asyncio.iscoroutine(coro) or isinstance(coro, asyncio.Future)):
+            return self.loop.run_until_complete(asyncio.wait_for(coro, timeout))
         return self.loop.run_until_complete(coro)
 
     def task(self, coro):
